@@ -335,6 +335,9 @@ UF = {
     np.square: _fp(lambda a: lift(a) * lift(a), 1),
 }
 
+_BOOL_UFUNCS = {np.greater, np.greater_equal, np.less, np.less_equal, np.equal, np.not_equal, np.logical_and, np.logical_or,
+                np.logical_xor, np.logical_not, np.isnan, np.isfinite, np.isinf}
+
 # --------------------------------------------------------------------------
 # reductions (python folds over lists of Sym)
 
@@ -586,7 +589,10 @@ def _to_kind(a, kind):
         return conv(a)
     for i in np.ndindex(*a.shape):
         arr[i] = conv(src[i])
-    return wrap(arr)
+    res = wrap(arr)
+    if arr.size == 0:
+        res._empty_kind = kind
+    return res
 
 
 def _dtype_kind(dtype):
@@ -619,7 +625,9 @@ class SymArray(np.ndarray):
     __array_priority__ = 100
 
     def __array_finalize__(self, o):
-        pass
+        k = getattr(o, '_empty_kind', None)
+        if k is not None:
+            self._empty_kind = k
 
     def __array_ufunc__(self, ufunc, method, *inputs, out=None, **kw):
         return array_ufunc(ufunc, method, inputs, out, kw)
@@ -852,7 +860,7 @@ def _prep_index1(k):
     if is_symint_array(k):
         return concretise_ints(k)
     if isinstance(k, np.ndarray) and k.dtype == object and k.size == 0:
-        return np.zeros(k.shape, dtype=bool if getattr(k, '_empty_kind', 'b') == 'b' else np.intp)
+        return np.zeros(k.shape, dtype=bool if getattr(k, '_empty_kind', 'i') == 'b' else np.intp)
     if isinstance(k, list) and has_sym(k):
         return _prep_index1(obj(k))
     return k
@@ -869,6 +877,14 @@ def array_ufunc(ufunc, method, inputs, out, kw):
             ins = [_as_objarr(obj(i)) for i in inputs]
             res = UF[ufunc](*ins)
             res = wrap(res) if isinstance(res, np.ndarray) else res
+            if isinstance(res, np.ndarray) and res.size == 0:
+                if ufunc in _BOOL_UFUNCS:
+                    res._empty_kind = 'b'
+                else:
+                    ks = [getattr(i, '_empty_kind', None) for i in inputs if isinstance(i, np.ndarray)]
+                    ks = [k for k in ks if k]
+                    if ks:
+                        res._empty_kind = 'f' if 'f' in ks else ks[0]
             if out is not None:
                 o = out[0]
                 if isinstance(o, np.ndarray) and o.dtype == object:
